@@ -53,6 +53,7 @@ class AOneShot:
     def __init__(self, thunk) -> None:
         self._thunk = thunk
         self._items = None
+        self.truncated = False      # an unbounded generator cut after GEN_LIMIT elements: only a lazy consumer may take from it
 
     def items(self) -> list:
         if self._items is None:
@@ -107,6 +108,13 @@ class ASuper:
     def __init__(self, obj: AObj, cls: ClassInfo) -> None:
         self.obj = obj
         self.cls = cls
+
+
+GEN_LIMIT = 64
+
+
+class _GenTruncated(BaseException):
+    """A generator body has produced GEN_LIMIT elements: it is cut there (not an error of the interpreted code)."""
 
 
 class _Return(Exception):
@@ -208,6 +216,15 @@ class Interp:
         if v is TOP:
             return self.oracle.choose()
         if isinstance(v, AObj):
+            if isinstance(v.cls, ClassInfo):
+                # the truth protocol of an in-repo class: __bool__, else __len__
+                for name in ('__bool__', '__len__'):
+                    m = self.p.lookup_method(v.cls, name)
+                    if m is not None:
+                        r = self.call_unit(m, [], {}, v)
+                        if r is TOP:
+                            return self.oracle.choose()
+                        return bool(r)
             if isinstance(v.cls, ClassInfo) and 'data' in v.attrs and isinstance(v.attrs['data'], dict):
                 return bool(v.attrs['data'])
             return True
@@ -270,6 +287,13 @@ class Interp:
             if name in mine:
                 return True
         return False
+
+    def _module_value(self, mod, name: str, expr: ast.AST):
+        """The value of a module-level name: evaluated once per world (a mutable one is one object for the whole process)."""
+        key = ('module:' + mod.name, name)
+        if key not in _CLASS_VALUES:
+            _CLASS_VALUES[key] = self.eval(expr, {'__module__': mod, '__unit__': None, '__closure__': None})
+        return _CLASS_VALUES[key]
 
     def _class_value(self, owner, attr: str, default: ast.AST):
         """The value of a class-level attribute: evaluated once (when the class body runs) and shared by every instance that
@@ -335,13 +359,18 @@ class Interp:
             yields: list = []
             env['__yields__'] = yields
 
+            holder: list = []
+
             def thunk(body=unit.node.body, env=env, yields=yields):
                 try:
                     self.exec_block(body, env)
                 except _Return:
                     pass
+                except _GenTruncated:
+                    holder[0].truncated = True
                 return yields
-            return AOneShot(thunk)
+            holder.append(AOneShot(thunk))
+            return holder[0]
         try:
             self.exec_block(unit.node.body, env)
         except _Return as r:
@@ -358,6 +387,14 @@ class Interp:
             return self.construct(f, args, kwargs)
         if isinstance(f, AExt):
             return self.call_ext(f, args, kwargs)
+        if isinstance(f, AObj) and f.cls == ('ext', 'operator.attrgetter'):
+            def one(path):
+                v = args[0]
+                for part in path.split('.'):
+                    v = self.getattr_(v, part, {'__unit__': None, '__closure__': None, '__module__': None}, node)
+                return v
+            names = f.attrs['names']
+            return one(names[0]) if len(names) == 1 else tuple(one(n_) for n_ in names)
         if isinstance(f, AObj) and f.cls == ('ext', 'functools.partial'):
             return self.call(f.attrs['func'], list(f.attrs['args']) + list(args), {**f.attrs['keywords'], **kwargs}, node)
         raise AnalysisError(f'abstract interpretation: call of {f!r} ({unparse(node) if node is not None else ""})')
@@ -392,6 +429,20 @@ class Interp:
             for n, v in zip(names, args):
                 obj.attrs[n] = v
             obj.attrs.update(kwargs)
+            if getattr(self, 'eager_dataclasses', False):
+                # the dataclass protocol in full: every defaulted field is materialised now (in declaration order, base classes
+                # first), then __post_init__ runs
+                env_ = {'__unit__': None, '__closure__': None, '__module__': ref.module}
+                for c_ in reversed([x for x in self.p.mro(ref) if isinstance(x, ClassInfo)]):
+                    for fname, (ann, default) in c_.fields.items():
+                        if ann is not None and default is not None and fname not in obj.attrs:
+                            if isinstance(default, ast.Call) and (dotted(default.func) or '').split('.')[-1] == 'field' \
+                                    and not any(kw.arg in ('default', 'default_factory') for kw in default.keywords):
+                                continue                    # field(init=False): set by __post_init__
+                            self.getattr_(obj, fname, env_, None)
+                post = self.p.lookup_method(ref, '__post_init__')
+                if post is not None:
+                    self.call_unit(post, [], {}, obj)
             return obj
         name = ref[1]
         anc = self._ext_anc(name)
@@ -469,7 +520,13 @@ class Interp:
         if isinstance(v, (list, tuple, set, frozenset)):
             return list(v)
         if isinstance(v, AOneShot):
-            return list(v.items())
+            items = list(v.items())
+            if v.truncated:
+                # only the first GEN_LIMIT elements of an unbounded generator are known
+                if getattr(self, '_lazy_depth', 0) == 0:
+                    raise AnalysisError('abstract interpretation: an unbounded generator is consumed to its end')
+                self._saw_truncated = True
+            return items
         if isinstance(v, dict):
             return list(v.keys())
         if isinstance(v, AClass) and self._is_enum(v.ref):
@@ -514,6 +571,13 @@ class Interp:
             return False
         if name == 'builtins.bool':
             return self.truth(args[0]) if args else False
+        if name == 'builtins.id' and len(args) == 1 and args[0] is not TOP and not isinstance(args[0], (str, int, float, tuple)):
+            return id(args[0])                       # the identity of the abstract object stands for the identity of the real one
+        if name in ('builtins.max', 'builtins.min') and args and not kwargs:
+            vals_ = self._to_list(args[0]) if len(args) == 1 else list(args)
+            if vals_ and all(isinstance(x, (int, float)) and not isinstance(x, bool) for x in vals_):
+                return max(vals_) if name.endswith('max') else min(vals_)
+            return TOP
         if name == 'builtins.any':
             return any(self.truth(x) for x in self._to_list(args[0]))
         if name == 'builtins.all':
@@ -526,6 +590,19 @@ class Interp:
         if name in ('networkx.topological_sort', 'networkx.lexicographical_topological_sort') and args and isinstance(args[0], AObj) \
                 and 'nodes' in args[0].attrs and args[0].attrs['nodes'] is not TOP:
             return self._to_list(args[0].attrs['nodes'])          # some order of the abstract graph's nodes
+        if name == 'networkx.subgraph_view' and args and isinstance(args[0], AObj) and isinstance(args[0].attrs.get('edges'), dict) \
+                and isinstance(args[0].attrs.get('nodes'), dict):
+            # a view through two predicates: kept nodes, and the edges between kept nodes that the edge filter keeps
+            g_ = args[0]
+            fn = kwargs.get('filter_node', args[1] if len(args) > 1 else None)
+            fe = kwargs.get('filter_edge', args[2] if len(args) > 2 else None)
+            keep = {n_: a_ for n_, a_ in g_.attrs['nodes'].items() if fn is None or self.truth(self.call(fn, [n_], {}))}
+            edges_v = {(u, v): a_ for (u, v), a_ in g_.attrs['edges'].items()
+                       if u in keep and v in keep and (fe is None or self.truth(self.call(fe, [u, v], {})))}
+            view = AObj(g_.cls, {'nodes': keep, 'edges': edges_v}, tag=(g_.tag or 'graph') + '-view')
+            if 'graph' in g_.attrs:
+                view.attrs['graph'] = g_.attrs['graph']
+            return view
         if name == 'networkx.all_simple_paths' and len(args) >= 3 and isinstance(args[0], AObj) and isinstance(args[0].attrs.get('edges'), dict):
             # every simple path source -> target of the abstract graph (a finite table: enumerated)
             edges_ = list(args[0].attrs['edges'])
@@ -592,6 +669,8 @@ class Interp:
             seq = args[0].items() if isinstance(args[0], AOneShot) else args[0]
             if seq:
                 return seq[0]
+            if isinstance(args[0], AOneShot) and args[0].truncated:
+                raise AnalysisError('abstract interpretation: next() finds nothing in the known part of an unbounded generator')
             if len(args) > 1:
                 return args[1]
             raise ARaise('StopIteration')
@@ -614,6 +693,30 @@ class Interp:
             if args and isinstance(args[0], AObj):
                 return f'str({args[0]!r})'            # the text of an object is not the object (nor its .value)
             return TOP
+        if name == 're.compile' and args and isinstance(args[0], str):
+            flags = args[1] if len(args) > 1 else kwargs.get('flags', 0)
+            if isinstance(flags, int):
+                return AObj(('ext', 're.Pattern'), {'pattern': args[0], 'flags': flags}, tag=f're:{args[0][:20]}')
+            return TOP
+        if name.startswith('re.') and last in ('sub', 'subn', 'split', 'findall', 'escape', 'match', 'fullmatch', 'search'):
+            import re as _re
+            recv_ = f.recv
+            conc = lambda x: isinstance(x, (str, int)) and not isinstance(x, bool)      # noqa: E731
+            if isinstance(recv_, AObj) and recv_.cls == ('ext', 're.Pattern'):
+                if not all(conc(x) for x in args) or kwargs:
+                    return TOP
+                r_ = getattr(_re.compile(recv_.attrs['pattern'], recv_.attrs['flags']), last)(*args)
+            elif recv_ is None and all(conc(x) for x in args) and all(conc(x) for x in kwargs.values()):
+                r_ = getattr(_re, last)(*args, **kwargs)
+            else:
+                return TOP
+            if last in ('match', 'fullmatch', 'search'):
+                if r_ is None:
+                    return None
+                return AObj(('ext', 're.Match'), {'group0': r_.group(0), 'groups': r_.groups()}, tag='match')
+            return list(r_) if isinstance(r_, list) else (tuple(r_) if isinstance(r_, tuple) else r_)
+        if name == 'operator.attrgetter' and args and all(isinstance(a_, str) for a_ in args):
+            return AObj(('ext', 'operator.attrgetter'), {'names': tuple(args)}, tag='attrgetter')
         if name == 'functools.partial':
             target = args[0]
             if isinstance(target, AFunc):
@@ -1073,7 +1176,7 @@ class Interp:
         if res[0] == 'func':
             return AFunc(res[1])
         if res[0] == 'value':
-            return self.eval(res[2], {'__module__': res[1], '__unit__': None, '__closure__': None})
+            return self._module_value(res[1], name, res[2])
         if res[0] == 'ext':
             return AExt(res[1]) if not self._is_ext_class(res[1]) else AClass(('ext', res[1]))
         if res[0] == 'module':
@@ -1096,6 +1199,10 @@ class Interp:
         if obj is TOP:
             return TOP
         real = self.mangle(attr, env)
+        if (obj is None or (isinstance(obj, (str, int, float, bytes)) and not isinstance(obj, bool))) and attr.startswith('__') \
+                and attr.endswith('__') and not hasattr(obj, attr):
+            # a concrete value that is not a class / function: no __qualname__, __module__, __name__, __mro__ ...
+            raise ARaise(f'AttributeError ({type(obj).__name__!r} object has no attribute {attr!r})')
         if isinstance(obj, AObj):
             if real in obj.attrs:
                 return obj.attrs[real]
@@ -1106,6 +1213,8 @@ class Interp:
                         v = self.getattr_(base, attr, env, node)
                         if v is not TOP:
                             return v
+            if obj.cls == ('ext', 're.Pattern') and attr in ('sub', 'subn', 'split', 'findall', 'match', 'fullmatch', 'search'):
+                return AExt(f're.Pattern.{attr}', recv=obj)
             if attr in ('predecessors', 'successors', 'in_edges', 'out_edges', 'has_node', 'has_edge', 'add_node', 'add_edge',
                         'copy', 'subgraph') and 'edges' in obj.attrs and isinstance(obj.attrs['edges'], dict):
                 return AExt(f'networkx.DiGraph.{attr}', recv=obj)           # an abstract graph given by its edge / node tables
@@ -1173,7 +1282,7 @@ class Interp:
                 if res[0] == 'func':
                     return AFunc(res[1])
                 if res[0] == 'value':
-                    return self.eval(res[2], {'__module__': res[1], '__unit__': None, '__closure__': None})
+                    return self._module_value(res[1], attr, res[2])
                 if res[0] == 'module':
                     return AExt(res[1])
             return AExt(f'{obj.name}.{attr}', recv=obj.recv)
@@ -1230,6 +1339,8 @@ class Interp:
             if '__yields__' not in env:
                 raise AnalysisError('abstract interpretation: yield outside a generator function')
             env['__yields__'].append(self.eval(e.value, env) if e.value is not None else None)
+            if len(env['__yields__']) >= GEN_LIMIT:
+                raise _GenTruncated()
             return None
         if isinstance(e, ast.YieldFrom):
             if '__yields__' not in env:
@@ -1296,11 +1407,22 @@ class Interp:
             return d
         if isinstance(e, (ast.ListComp, ast.GeneratorExp, ast.SetComp)):
             if isinstance(e, ast.GeneratorExp):
+                gholder: list = []
+
                 def thunk(e=e, env=env):
                     acc: list = []
-                    self._comp(e, 0, env, acc)
+                    self._lazy_depth = getattr(self, '_lazy_depth', 0) + 1
+                    saw, self._saw_truncated = getattr(self, '_saw_truncated', False), False
+                    try:
+                        self._comp(e, 0, env, acc)
+                        if self._saw_truncated:
+                            gholder[0].truncated = True
+                    finally:
+                        self._lazy_depth -= 1
+                        self._saw_truncated = saw or self._saw_truncated
                     return acc
-                return AOneShot(thunk)
+                gholder.append(AOneShot(thunk))
+                return gholder[0]
             out: list = []
             self._comp(e, 0, env, out)
             return out if not isinstance(e, ast.SetComp) else set(out)
@@ -1335,7 +1457,17 @@ class Interp:
                 raise ARaise('KeyError')
             return d[key]
         if isinstance(e, ast.Lambda):
-            return AFunc(self.p.unit_of_node[id(e)], None, env)
+            lu = self.p.unit_of_node.get(id(e))
+            if lu is None:
+                # a lambda outside any function body (a class-level default factory, a decorator argument): indexed on demand
+                mod_ = env.get('__module__')
+                if mod_ is None:
+                    raise AnalysisError('abstract interpretation: a lambda outside a module')
+                fid = f'{mod_.name}::<lambda@{getattr(e, "lineno", 0)}:{getattr(e, "col_offset", 0)}>'
+                lu = FuncUnit(fid, '<lambda>', e, mod_, None, None, False)
+                self.p.functions.setdefault(fid, lu)
+                self.p.unit_of_node[id(e)] = lu
+            return AFunc(lu, None, env)
         if isinstance(e, ast.JoinedStr):
             parts = []
             for v in e.values:
